@@ -354,7 +354,8 @@ def gen_cases(rng, tier):
             doc, sops, ids, max_id, g = gen_doc(rng, reals, n=big)
             revs = gen_revs(rng, reals, g, ids, max_id, fmt, 1)
             cases.append((g.finish(L('inc', fmt, doc, sops, *revs)), {'kind': 'big-%s' % fmt, 'nontrivial': True}))
-    # file-size / digit-count families: offsets of 6 (quick) and 7 (thorough) digits from a few large streams (bodies holding
+    # file-size / digit-count families: offsets of 6 digits (files of 120 KB; 240 KB in the thorough tier -- the extracted reader's
+    # List.length is not tail recursive, files above ~300 KB overflow the OCaml stack) from a few large streams (bodies holding
     # every byte value and the keywords a careless reader resynchronises on), every generation 65535 ("65535 n" entries and
     # 0xFFFF in field 3 of a cross-reference stream), many tiny objects (long subsections / one long Index pair), and dense
     # runs broken by single gaps (many one-entry subsections); each followed by one incremental update.
@@ -371,13 +372,13 @@ def gen_cases(rng, tier):
         return (unit * (size // len(unit) + 1))[:size]
 
     fams = []
-    for size in ([30000] if tier == 'quick' else [30000, 400000]):
+    for size in ([30000] if tier == 'quick' else [30000, 60000]):
         objs = [((1, 0), D([(b'Type', N(b'Catalog'))]))]
         for k in range(2, 6):
             body = big_body(k, size + k)
             objs.append(((k, 0), ST([(b'Length', I(len(body)))], body)))
         objs.append(((9, 7), A([I(1), REF(2, 0), S(b'after the big streams')])))
-        fams.append(('digits%d' % len(str(4 * size)), objs, 9))
+        fams.append(('digits6-%dk' % (4 * size // 1000), objs, 9))
     fams.append(('gen65535', [((k, 65535), D([(b'K', I(k)), (b'R', REF(max(1, k - 1), 65535))])) for k in (1, 2, 3, 5, 8, 13, 14, 15, 40)], 41))
     nmany = 1000 if tier == 'quick' else 2500
     fams.append(('many-tiny', [((k, 0), I(k)) for k in range(1, nmany + 1)], nmany))
